@@ -370,6 +370,11 @@ func (d *Def) getMethodNameAndSetIsStatic(
 				ctx.IsDefineStatic,
 			)
 
+		// def on an object that was never assigned: use an anonymous receiver
+		if objectT == nil {
+			objectT = base.MakeUnknown()
+		}
+
 		if objectT.ID == "" {
 			objectT.ID = base.GenId()
 		}
@@ -690,7 +695,7 @@ func (d *Def) Evaluation(
 	methodT := d.makeDefineMethodT(p, ctx, method, args, returnT, isBlockGiven)
 
 	// def hoge= || def [] || def []=
-	if method[len(method)-1] == '=' || method == "[]" || method == "[]=" {
+	if method != "" && (method[len(method)-1] == '=' || method == "[]" || method == "[]=") {
 		for _, arg := range args {
 			base.SetValueT(
 				methodT.DefinedFrame,
